@@ -573,6 +573,16 @@ func ResolveAnchors(p *Prog) *Anchors {
 					if callIsMethod(c, "net/http", "Header", "Del") {
 						del = true
 					}
+					// maps.DeleteFunc(header, pred)
+					if sc := c.StaticCallee(); sc != nil && len(c.Args) == 2 && isHTTPHeader(c.Args[0].Type()) {
+						n := sc.String()
+						if o := sc.Origin(); o != nil {
+							n = o.String()
+						}
+						if strings.HasPrefix(n, "maps.DeleteFunc") {
+							del = true
+						}
+					}
 				}
 			})
 			return del
